@@ -3,6 +3,7 @@ package consim
 import (
 	"encoding/hex"
 	"fmt"
+	"github.com/gogo/protobuf/proto"
 	"sort"
 	"time"
 
@@ -45,6 +46,8 @@ type byzProposal struct {
 	prop    *types.Proposal
 	targets map[int]bool // nil = everybody
 	mut     string       // perturbation applied to the block ("" = valid)
+	op      simcore.Op   // the action that made it (a twin re-uses its parameters)
+	enc     int          // > 0: the block's bytes carry an extra unknown protobuf field: same block, same hash, other part set
 }
 
 // byzVote is a vote a Byzantine validator offers to a subset of the correct nodes.
@@ -123,6 +126,26 @@ func (s *sim) nextByz(rng *simcore.RNG, roll int) simcore.Op {
 		for _, p := range s.bz.props {
 			if p.h == h && p.r == r {
 				n++
+			}
+		}
+		if n == 1 && rng.Bool(0.4) {
+			// the same block once more under another encoding (an unknown field appended to its
+			// bytes): same block hash, different part-set header, offered to the other nodes
+			for _, p := range s.bz.props {
+				if p.h == h && p.r == r && p.b == b && p.mut == "" && p.enc == 0 && p.op != nil {
+					op := simcore.Op{"a": "byz", "k": "propose", "b": b, "via": via.idx, "h": h, "r": r, "pol": p.op.Int("pol"), "ntx": p.op.Int("ntx"), "salt": p.op.Int("salt"), "enc": 1 + rng.Intn(3)}
+					var t []int
+					for i := range s.nodes {
+						if p.targets != nil && !p.targets[i] {
+							t = append(t, i)
+						}
+					}
+					if len(t) == 0 {
+						t = []int{rng.Intn(len(s.nodes))}
+					}
+					op["targets"] = t
+					return op
+				}
 			}
 		}
 		if n >= 2 || rng.Bool(0.3) {
@@ -325,6 +348,23 @@ func (s *sim) applyByz(op simcore.Op) bool {
 			}
 		}
 		parts := block.MakePartSet(types.BlockPartSizeBytes)
+		enc := op.Int("enc")
+		if enc > 0 && mut == "" {
+			pb, err := block.ToProto()
+			if err != nil {
+				panic(err)
+			}
+			bz, err := proto.Marshal(pb)
+			if err != nil {
+				panic(err)
+			}
+			bz = append(bz, 0x78, byte(enc)) // field 15, varint: unknown to tmproto.Block, skipped by the decoder
+			parts = types.NewPartSetFromData(bz, types.BlockPartSizeBytes)
+			s.mon.altEnc[string(parts.Hash())] = true
+			s.env.Count("fault.byz_proposal_alt_encoding")
+		} else {
+			enc = 0
+		}
 		bid := types.BlockID{Hash: block.Hash(), PartSetHeader: parts.Header()}
 		prop := types.NewProposal(h, r, int32(op.Int("pol")), bid)
 		prop.Timestamp = time.Now().UTC()
@@ -335,7 +375,7 @@ func (s *sim) applyByz(op simcore.Op) bool {
 		}
 		prop.Signature = sig
 		s.bz.seq++
-		p := &byzProposal{id: fmt.Sprintf("bp%d", s.bz.seq), b: op.Int("b"), h: h, r: r, block: block, parts: parts, prop: prop, targets: targetsOf(op), mut: mut}
+		p := &byzProposal{id: fmt.Sprintf("bp%d", s.bz.seq), b: op.Int("b"), h: h, r: r, block: block, parts: parts, prop: prop, targets: targetsOf(op), mut: mut, op: op, enc: enc}
 		s.bz.props = append(s.bz.props, p)
 		s.mon.onByzProposal(p)
 		s.env.Count("fault.byz_proposal")
@@ -384,6 +424,9 @@ func (s *sim) applyByz(op simcore.Op) bool {
 			for _, n := range s.alive() {
 				if rs := n.cs.GetRoundState(); rs.Height == h+1 && rs.LastValidators != nil {
 					vals = rs.LastValidators
+					if vals.Size() == 0 {
+						vals = rs.Validators // first height of the chain
+					}
 					break
 				}
 			}
@@ -479,10 +522,10 @@ func (s *sim) byzDeliverables(rss map[int]*cstypes.RoundState) []item {
 			if v.vote.Type == tmproto.PrecommitType {
 				typ = 2
 			}
-			if v.vote.Height == rs.Height-1 && typ == 2 && rs.Step == cstypes.RoundStepNewHeight && rs.LastCommit != nil &&
-				rs.LastCommit.GetRound() == v.vote.Round && (v.targets == nil || v.targets[n.idx]) {
+			if v.vote.Height == rs.Height-1 && typ == 2 && rs.Step == cstypes.RoundStepNewHeight &&
+				(rs.LastCommit == nil || rs.LastCommit.GetRound() == v.vote.Round) && (v.targets == nil || v.targets[n.idx]) {
 				// late precommit for the decided height (consensus adds it to LastCommit)
-				if rs.LastCommit.GetByIndex(v.vote.ValidatorIndex) == nil || s.tried["once/"+v.id+fmt.Sprint(n.idx, n.inc)] == "" {
+				if rs.LastCommit == nil || rs.LastCommit.GetByIndex(v.vote.ValidatorIndex) == nil || s.tried["once/"+v.id+fmt.Sprint(n.idx, n.inc)] == "" {
 					add(item{kind: "bvote", from: -1 - v.b, to: n.idx, h: v.vote.Height, r: v.vote.Round, typ: typ, id: v.id})
 				}
 				continue
